@@ -10,7 +10,7 @@ from props.refprops import RefCheck
 
 PID = "C16"
 THEOREMS = {"CbProps.C16": ["CbProps.C16." + t for t in [
-    "parseDec_renderDec", "renderDec_injective", "parseHex_renderHex", "toU64_lt", "padLeft_length", "padLeft_suffix",
+    "parseDec_renderDec", "renderDec_injective", "parseHex_renderHex", "toU64_lt", "padLeft_length", "padLeft_suffix", "padRight_length", "padRight_prefix",
     "zero_pad_sign_first", "zero_pad_length", "unescape_escape_braces", "printf_text_verbatim"]],
     "CbProps.C16Fixed": ["CbProps.C16Fixed." + t for t in [
         "round_nearest", "round_exact", "round_tie_even", "round_strict", "round_mono", "fraction_digits", "parse_render",
